@@ -87,3 +87,36 @@ func vpH_C31_detect_reset_same_schema() {
 	vpAssert(got == want, "reset reported exactly when the count, the zero count or a bucket count decreased")
 	vpReach("end")
 }
+
+// Float twin of compaction: FloatHistogram.Compact never changes the value of any bucket index
+// (zero and absent are the same total; the comparison is on bits except that an absent bucket counts as +0).
+func vpH_C31_compact_float() {
+	ps, _ := vpXSide("p", vpXMaxSpans())
+	n := 0
+	for _, s := range ps {
+		n += int(s.Length)
+	}
+	vals := make([]float64, n)
+	for i := range vals {
+		if vpShape("zero", 0, 1) == 1 {
+			vals[i] = 0
+		} else {
+			vals[i] = vpXNonNeg()
+			vpAssume(vals[i] != 0)
+		}
+	}
+	h := &FloatHistogram{Schema: 1, PositiveSpans: ps, PositiveBuckets: vals}
+	q := vpInt32()
+	before, _, okb := vpXCountAtF(ps, vals, q)
+	vpAssume(okb)
+	me := vpShape("maxEmpty", 0, 2)
+	c := h.Copy().Compact(me)
+	after, _, ok := vpXCountAtF(c.PositiveSpans, c.PositiveBuckets, q)
+	vpObserve("nspans", len(c.PositiveSpans))
+	vpObserve("nbuckets", len(c.PositiveBuckets))
+	vpAssert(ok, "span lengths match the bucket list")
+	vpAssert(after == before, "compaction preserves every bucket total")
+	orig, _, _ := vpXCountAtF(h.PositiveSpans, h.PositiveBuckets, q)
+	vpAssert(orig == before, "original unchanged")
+	vpReach("end")
+}
